@@ -20,35 +20,34 @@
                                                nxActions_in_list: the leaf kinds as elements of an action list (InstrActions);
                                                instrActions_deep_roundtrip: action lists that CONTAIN conntrack actions (`ActionsRTd`: the
                                                nesting budget explicit) — conntrack inside apply-actions, hence inside FlowMod / FlowStats
-    §2 Bucket, GroupMod (own decoders)         bucket_roundtrip (any action list whose sizes add up to a multiple of 8), groupMod_roundtrip
-                                               (any bucket list); groupMod_not_parsed / portMod_not_parsed / packetOut_not_parsed (known D28: Parse returns nil)
-    §3 PortMod, PacketOut (own decoders)       portMod_roundtrip (receiver NewPortMod), packetOut_noactions_partial
-    §4 multipart replies through Parse         record_aggregateStats / record_descStats / record_flowStats (Match + instructions),
-                                               multipartReply_roundtrip (any list of records)
+    §2 Bucket, GroupMod (own decoders)         bucket_roundtrip (any action list whose sizes add up to a multiple of 8), bucket_roundtrip_standard
+                                               (any list of standard-kind actions: they are all 8-aligned, standardAction_len_multiple_of_8),
+                                               groupMod_roundtrip (any bucket list); groupMod_not_parsed / portMod_not_parsed /
+                                               packetOut_not_parsed (known D28: Parse returns nil)
+    §3 PortMod, PacketOut (own decoders)       portMod_roundtrip (receiver NewPortMod), portMod_roundtrip_zero_receiver (receiver new(PortMod)),
+                                               portMod_decode_any_receiver, packetOut_noactions_partial
+    §4 multipart replies through Parse         record_aggregateStats / record_descStats / record_queueStats / record_flowStats (Match +
+                                               instructions), multipartReply_roundtrip (any list of records), queueStats_reply_roundtrip
     §5 vendor messages through Parse           vendor_roundtrip (any payload) with payloads setControllerID / tlvTableMod / tlvTableReply (any
                                                map list) / bundleControl / bundleAdd around a header-only message or a FlowMod, without and
                                                with properties (bundleAdd_*).
 
   Where the round trip is FALSE in the model (= the Go code violates C05) the concrete counterexample is proved:
-    bucket_unpadded_counterexample          GENUINE DEFECT.  A Bucket holding one of the library's 4-byte actions (copy-ttl-out/in,
-                                            dec-mpls-ttl, pop-pbb, set-mpls-ttl, set-nw-ttl): `Bucket.MarshalBinary` pads the bucket to
-                                            a multiple of 8, `Bucket.UnmarshalBinary` runs its action loop up to the padded Length and decodes
-                                            the padding as an action (type 0 = output): error when the bucket is the last thing in the buffer,
-                                            a spurious all-zero ActionOutput appended when other bytes follow.  (bucket_roundtrip needs Σ sizes ≡ 0 mod 8.)
     packetOut_never_decodes                 GENUINE DEFECT (known: the action loop `for n < n+ActionsLen`).  `PacketOut.UnmarshalBinary`
                                             into `new(PacketOut)` or `NewPacketOut()` NEVER returns a value, whatever the input: Data is a nil
                                             interface and `p.Data.UnmarshalBinary` panics if the loop is survived at all.
     packetOut_action_counterexample         … and with a receiver whose Data has been pre-set, a PacketOut with one action still panics (the
                                             loop condition `n < n+ActionsLen` never becomes false); only the action-less form decodes
                                             (packetOut_noactions_partial).  Parse does not dispatch packet-out at all (packetOut_not_parsed).
-    portMod_zero_receiver_counterexample    GENUINE DEFECT.  `PortMod.UnmarshalBinary` into `new(PortMod)`: the offsets depend on
-                                            `len(p.HWAddr)` of the RECEIVER (0): HWAddr stays empty, Config/Mask/Advertise are read 6 bytes early.
-    queueStats_counterexample               GENUINE DEFECT.  A queue-stats multipart reply through Parse: the record decoder advances by
-                                            `len(s.pad)` of `new(QueueStats)` (0) instead of 2: QueueId and the three counters come back wrong.
     nxNote_padding_counterexample           representation change: a note whose length + 10 is not a multiple of 8 comes back with the zero
                                             padding appended (the decoder takes everything up to Length as the note) — observable field differs.
   Representation changes that are not defects: NXActionRegLoad/RegMove/OutputReg and learn specs carry only the 4-byte OXM HEADER of
-  their fields on the wire; a field given with Value/Mask comes back header-only (`hdrField`).
+  their fields on the wire; a field given with Value/Mask comes back header-only (`hdrField`); a bare 4-byte ActionHeader literal used
+  as an action comes back in the 8-byte ActionDecNwTtl kind (bucket_bareHeader_literal).
+  Fixed since the first version of this file, the counterexamples replaced by positive theorems: 4-byte action kinds inside a Bucket
+  (bucket_unpadded_counterexample → bucket_roundtrip_standard, bucket_headerOnly_example), PortMod decoded into `new(PortMod)`
+  (portMod_zero_receiver_counterexample → portMod_roundtrip_zero_receiver, portMod_zero_receiver_example), QueueStats decoded 2 bytes
+  early (queueStats_counterexample → record_queueStats, queueStats_reply_roundtrip, queueStats_example).
 -/
 import OFV.Model.All
 import OFV.Lemmas.RTBasic
@@ -383,18 +382,63 @@ theorem bucket_roundtrip (w wp wg : Nat) (as : List V) (encs : List Bytes) (hw :
   refine ⟨h1, h1 _ _, h1 _ _, fun data tail hd hb => ?_⟩
   simp only [Bucket.unmarshal, h4 data tail hd hb, Res.bind_ok, Bool.false_eq_true, if_false, Res.pure_eq]
 
-/-- COUNTEREXAMPLE (genuine defect).  A bucket with the 4-byte action copy-ttl-out (Σ sizes = 4): the encoder pads the bucket to 24
-    bytes, the decoder's action loop runs up to Length = 24 and tries to decode the 4 padding bytes as an action (type 0 = output):
-    an error when nothing follows, a spurious all-zero ActionOutput appended when other bytes follow (here: 16 zero bytes). -/
-theorem bucket_unpadded_counterexample :
-    let a := ActionHeader.mk Gen.openflow13.ActionType_CopyTtlOut 4
+/-- Corollary: for action lists of the STANDARD kinds (`StdKind a`: `a` is of a kind `DecodeAction` allocates for a non-experimenter
+    type — output, the header-only types, set-mpls-ttl, set-nw-ttl, push/pop, set-queue, group, dec-nw-ttl, set-field) the hypothesis
+    "sizes add up to a multiple of 8" of bucket_roundtrip always holds: every such kind has a Len() that is a multiple of 8
+    (`stdKind_len8`, whatever the field values) — fixed: the header-only types and set-mpls-ttl / set-nw-ttl used to be 4-byte kinds, and a
+    bucket holding one of them was padded by the encoder and its padding decoded as a spurious action. -/
+theorem bucket_roundtrip_standard (w wp wg : Nat) (as : List V) (encs : List Bytes) (hw : w < 65536) (hwp : wp < 4294967296)
+    (hwg : wg < 4294967296) (has : ActionsRTd as encs) (hstd : ∀ a ∈ as, StdKind a) (hS : 16 + encs.flatten.length < 65536) :
+    let L := 16 + encs.flatten.length
+    let v' := bucketV L w wp wg (.bytes []) as
+    let bs := bucketBytes L w wp wg encs
+    (∀ (ln0 : Nat) (pad : V), Bucket.marshalM (bucketV ln0 w wp wg pad as) = .ok (bs, bucketV L w wp wg pad as)) ∧
+    RoundTrip Bucket.marshalM (Bucket.unmarshal Bucket.zero) v' v' bs :=
+  bucket_roundtrip w wp wg as encs hw hwp hwg has (stdKinds_flatten8 as encs has hstd) hS
+
+/-- every standard kind is 8-aligned: Len() of any value of such a kind is a multiple of 8 -/
+theorem standardAction_len_multiple_of_8 (v v' : V) (l : UInt16) (hs : StdKind v) (hl : Action.lenM v = .ok (l, v')) :
+    l.toNat % 8 = 0 :=
+  stdKind_len8 v v' l hs hl
+
+/-- satisfiable, with the kinds of the former counterexample: a bucket [copy-ttl-out, set-mpls-ttl 7, set-nw-ttl 64, output 2]
+    (8 + 8 + 8 + 16 bytes) -/
+example : ∃ as encs, ActionsRTd as encs ∧ (∀ a ∈ as, StdKind a) ∧ as.length = 4 ∧ encs.flatten.length = 40 := by
+  refine ⟨_, _, .of (.cons (actionRT_hdrPad Gen.openflow13.ActionType_CopyTtlOut 8 (by decide) rfl (by decide))
+    (.cons (actionRT_mplsTtl 8 7 (by decide) (by decide))
+      (.cons (actionRT_nwTtl 8 64 (by decide) (by decide))
+        (.cons (actionRT_output 16 2 65535 (by decide) (by decide) (by decide)) .nil)))), ?_, rfl, rfl⟩
+  intro a ha
+  simp only [List.mem_cons, List.not_mem_nil, or_false] at ha
+  rcases ha with rfl | rfl | rfl | rfl
+  · exact ⟨Gen.openflow13.ActionType_CopyTtlOut, _, rfl, rfl⟩
+  · exact ⟨Gen.openflow13.ActionType_SetMplsTtl, _, rfl, rfl⟩
+  · exact ⟨Gen.openflow13.ActionType_SetNwTtl, _, rfl, rfl⟩
+  · exact ⟨Gen.openflow13.ActionType_Output, _, rfl, rfl⟩
+
+/-- the former counterexample (a bucket with copy-ttl-out) in the form the library now produces — the 8-byte ActionDecNwTtl kind:
+    24 bytes, decoded back exactly, alone in the buffer and followed by other bytes (no error, no spurious action) -/
+theorem bucket_headerOnly_example :
+    let a := V.obj "ActionDecNwTtl" [ActionHeader.mk Gen.openflow13.ActionType_CopyTtlOut 8, .bytes []]
     let v := bucketV 24 1 4294967295 4294967295 (.bytes []) [a]
+    let bs : Bytes := [0, 24, 0, 1, 255, 255, 255, 255, 255, 255, 255, 255, 0, 0, 0, 0,  0, 11, 0, 8, 0, 0, 0, 0]
+    Bucket.marshalM v = .ok (bs, v) ∧
+    Bucket.unmarshal Bucket.zero (Slice.exact bs) = .ok v ∧
+    Bucket.unmarshal Bucket.zero (Slice.exact (bs ++ zeros 16)) = .ok v :=
+  ⟨rfl, rfl, rfl⟩
+
+/-- REMARK on a value that can only be written as a literal: a bare 4-byte `ActionHeader` used as an action (no constructor and,
+    since the fix, no decoder produces one: `DecodeAction` maps the header-only types to the 8-byte ActionDecNwTtl).  A bucket
+    holding it still encodes (20 bytes padded to 24); decoding yields the same bucket with the action in its 8-byte kind — a
+    different value with the same wire bytes (its encoding is `bs` again).  This is a representation change of a hand-built
+    value, not a loss: type and Length come back. -/
+theorem bucket_bareHeader_literal :
+    let v := bucketV 24 1 4294967295 4294967295 (.bytes []) [ActionHeader.mk Gen.openflow13.ActionType_CopyTtlOut 4]
+    let v' := bucketV 24 1 4294967295 4294967295 (.bytes [])
+      [.obj "ActionDecNwTtl" [ActionHeader.mk Gen.openflow13.ActionType_CopyTtlOut 4, .bytes []]]
     let bs : Bytes := [0, 24, 0, 1, 255, 255, 255, 255, 255, 255, 255, 255, 0, 0, 0, 0,  0, 11, 0, 4,  0, 0, 0, 0]
     Bucket.marshalM v = .ok (bs, v) ∧
-    Bucket.unmarshal Bucket.zero (Slice.exact bs) = .err ∧
-    Bucket.unmarshal Bucket.zero (Slice.exact (bs ++ zeros 16))
-      = .ok (bucketV 24 1 4294967295 4294967295 (.bytes [])
-          [a, .obj "ActionOutput" [ActionHeader.mk 0 0, .num 0, .num 0, .bytes []]]) :=
+    Bucket.unmarshal Bucket.zero (Slice.exact bs) = .ok v' ∧ Bucket.marshalM v' = .ok (bs, v') :=
   ⟨rfl, rfl, rfl⟩
 
 /-- GroupMod (through `GroupMod.UnmarshalBinary` into `new(GroupMod)`; Parse does not dispatch group-mod, see below) holding ANY list of
@@ -447,13 +491,41 @@ theorem portMod_roundtrip (ver ty xid no p0 : Nat) (hw : Bytes) (cfg mask adv : 
   obtain ⟨h1, _, h3⟩ := portMod_rt ver ty xid no hw cfg mask adv hver hty hxid hno hhw hcfg hmask hadv
   exact ⟨h1, h1 _, h1 _, h3 p0⟩
 
-/-- COUNTEREXAMPLE (genuine defect): the same message decoded into `new(PortMod)`.  The decoder advances by `len(p.HWAddr)` of the
-    receiver (0): HWAddr stays empty and Config / Mask / Advertise are read 6 bytes too early (Config = 0x03040506 from the MAC). -/
-theorem portMod_zero_receiver_counterexample :
+/-- PortMod decoded into `new(PortMod)` (nil HWAddr, nil pads), followed by anything (fixed: the decoder used to advance by
+    `len(p.HWAddr)` of the receiver, 0 here, leave HWAddr empty and read Config / Mask / Advertise 6 bytes too early; now a
+    receiver whose HWAddr is not 6 bytes long gets a fresh 6-byte address and the cursor advances by 6).  Every exported field
+    comes back; the unexported pads of `new(PortMod)` stay nil — `v0` is the value with nil pads, which encodes to the same bytes. -/
+theorem portMod_roundtrip_zero_receiver (ver ty xid no : Nat) (hw : Bytes) (cfg mask adv : Nat) (hver : ver < 256) (hty : ty < 256)
+    (hxid : xid < 4294967296) (hno : no < 4294967296) (hhw : hw.length = 6) (hcfg : cfg < 4294967296) (hmask : mask < 4294967296)
+    (hadv : adv < 4294967296) :
+    let v := portModV ver ty 40 xid no (zeros 4) hw (zeros 2) cfg mask adv (zeros 4)
+    let v0 := portModV ver ty 40 xid no [] hw [] cfg mask adv []
+    let bs := [n8 ver, n8 ty] ++ be16 (n16 40) ++ be32 (n32 xid) ++ be32 (n32 no) ++ zeros 4 ++ hw ++ zeros 2 ++ be32 (n32 cfg)
+      ++ be32 (n32 mask) ++ be32 (n32 adv) ++ zeros 4
+    RoundTrip PortMod.marshalM (PortMod.unmarshal PortMod.zero) v v0 bs := by
+  obtain ⟨h1, _, _⟩ := portMod_rt ver ty xid no hw cfg mask adv hver hty hxid hno hhw hcfg hmask hadv
+  obtain ⟨g1, g2⟩ := portMod_rt_zero ver ty xid no hw cfg mask adv hver hty hxid hno hhw hcfg hmask hadv
+  exact ⟨h1 _, g1 _, g2⟩
+
+/-- … and into ANY PortMod receiver (whatever its header, scalars and HWAddr) whose unexported pads hold at most 4 / 2 / 4 bytes:
+    the exported fields come back, the pads keep their lengths and hold zeros -/
+theorem portMod_decode_any_receiver (ver ty xid no : Nat) (hw : Bytes) (cfg mask adv : Nat) (hver : ver < 256) (hty : ty < 256)
+    (hxid : xid < 4294967296) (hno : no < 4294967296) (hhw : hw.length = 6) (hcfg : cfg < 4294967296) (hmask : mask < 4294967296)
+    (hadv : adv < 4294967296) (h0 x y z w : V) (p1 hw0 p2 p3 : Bytes) (hp1 : p1.length ≤ 4) (hp2 : p2.length ≤ 2) (hp3 : p3.length ≤ 4)
+    (data : Slice) (tail : Bytes) (hd : data.WF)
+    (hb : data.bytes = [n8 ver, n8 ty] ++ be16 (n16 40) ++ be32 (n32 xid) ++ be32 (n32 no) ++ zeros 4 ++ hw ++ zeros 2 ++ be32 (n32 cfg)
+      ++ be32 (n32 mask) ++ be32 (n32 adv) ++ zeros 4 ++ tail) :
+    PortMod.unmarshal (.obj "PortMod" [h0, x, .bytes p1, .bytes hw0, .bytes p2, y, z, w, .bytes p3]) data
+      = .ok (portModV ver ty 40 xid no (zeros p1.length) hw (zeros p2.length) cfg mask adv (zeros p3.length)) :=
+  portMod_decode ver ty xid no hw cfg mask adv hver hty hxid hno hhw hcfg hmask hadv h0 x y z w p1 hw0 p2 p3 hp1 hp2 hp3 data tail hd hb
+
+/-- the former counterexample (port 3, MAC 01:02:03:04:05:06, config 1, mask 1) decoded into `new(PortMod)` now comes back with its
+    address and Config / Mask / Advertise -/
+theorem portMod_zero_receiver_example :
     let v := portModV 4 16 40 7 3 (zeros 4) [1, 2, 3, 4, 5, 6] (zeros 2) 1 1 0 (zeros 4)
     ∃ bs, PortMod.marshalM v = .ok (bs, v) ∧
-      PortMod.unmarshal PortMod.zero (Slice.exact bs) = .ok (portModV 4 16 40 7 3 [] [] [] 50595078 0 65536 []) :=
-  RT2.portMod_zero_receiver_counterexample
+      PortMod.unmarshal PortMod.zero (Slice.exact bs) = .ok (portModV 4 16 40 7 3 [] [1, 2, 3, 4, 5, 6] [] 1 1 0 []) :=
+  ⟨_, rfl, rfl⟩
 
 /-- `Parse` has no case for port-mod either: (nil, nil) -/
 theorem portMod_not_parsed :
@@ -571,13 +643,39 @@ theorem multipartReply_flowStats_example :
   cases hmm; cases hmm'
   exact ⟨_, _, .cons (h1 (by decide)) (.cons (h2 (by decide)) .nil), rfl⟩
 
+/-- QueueStats record (32 bytes: port, 2 pad bytes, queue id, three 64-bit counters), for ALL field values: Parse decodes it into
+    `new(QueueStats)`, whose pad is nil and stays nil (fixed: `QueueStats.UnmarshalBinary` used to advance by `len(s.pad)` of the
+    receiver — 0 — instead of 2, so queue id and counters were read 2 bytes early).  A value whose pad holds up to 2 zero bytes
+    encodes to the same bytes (second statement).  As a `RecordRT` fact it can be an element of multipartReply_roundtrip. -/
+theorem record_queueStats (p q tb tp te : Nat) (hp : p < 65536) (hq : q < 4294967296) (htb : tb < 18446744073709551616)
+    (htp : tp < 18446744073709551616) (hte : te < 18446744073709551616) :
+    let bs := be16 (n16 p) ++ zeros 2 ++ be32 (n32 q) ++ be64 (n64 tb) ++ be64 (n64 tp) ++ be64 (n64 te)
+    RecordRT Gen.openflow13.MultipartType_Queue (.obj "QueueStats" [.num p, .bytes [], .num q, .num tb, .num tp, .num te]) bs ∧
+    ∀ kp, kp ≤ 2 → anyMarshalM (.obj "QueueStats" [.num p, .bytes (zeros kp), .num q, .num tb, .num tp, .num te])
+      = .ok (bs, .obj "QueueStats" [.num p, .bytes (zeros kp), .num q, .num tb, .num tp, .num te]) :=
+  ⟨recordRT_queue p q tb tp te hp hq htb htp hte, fun kp hkp => queueStats_marshal p q tb tp te kp hkp⟩
+
+/-- a queue-stats reply with ANY list of queue records through Parse, followed by anything (multipartReply_roundtrip at type QUEUE) -/
+theorem queueStats_reply_roundtrip (ver xid f : Nat) (rs : List V) (es : List Bytes) (hver : ver < 256) (hxid : xid < 4294967296)
+    (hf : f < 65536) (hrs : RecordsRT Gen.openflow13.MultipartType_Queue rs es) (hS : 16 + es.flatten.length < 65536) (depth : Nat) :
+    let L := 16 + es.flatten.length
+    let v' := mpReplyV ver L xid Gen.openflow13.MultipartType_Queue f (.bytes []) rs
+    RoundTrip MultipartReply.marshalM (parse depth) v' v'
+      ([n8 ver, n8 Gen.openflow13.Type_MultiPartReply] ++ be16 (n16 L) ++ be32 (n32 xid)
+        ++ (be16 (n16 Gen.openflow13.MultipartType_Queue) ++ be16 (n16 f) ++ zeros 4) ++ es.flatten) :=
+  (multipartReply_roundtrip ver xid Gen.openflow13.MultipartType_Queue f rs es hver hxid (by decide) hf hrs hS).2 depth
+
+/-- satisfiable: two queue records -/
+example : ∃ rs es, RecordsRT Gen.openflow13.MultipartType_Queue rs es ∧ rs.length = 2 :=
+  ⟨_, _, .cons (recordRT_queue 3 5 100 10 1 (by decide) (by decide) (by decide) (by decide) (by decide))
+    (.cons (recordRT_queue 4 6 18446744073709551615 0 7 (by decide) (by decide) (by decide) (by decide) (by decide)) .nil), rfl⟩
+
 set_option maxRecDepth 20000 in
-/-- COUNTEREXAMPLE (genuine defect).  A queue-stats reply: `QueueStats.MarshalBinary` writes port, 2 pad bytes, queue id, three counters;
-    Parse decodes the record into `new(QueueStats)` whose pad is nil and `QueueStats.UnmarshalBinary` advances by `len(s.pad)` = 0
-    instead of 2: QueueId comes back 0 and the three counters are read 2 bytes early (shifted by 16 bits). -/
-theorem queueStats_counterexample :
+/-- the former counterexample (port 3, queue 5, counters 100 / 10 / 1; the record built with 2 pad bytes) now comes back with its
+    queue id and counters; the pad of the decoded record is nil (receiver `new(QueueStats)`) -/
+theorem queueStats_example :
     let q := V.obj "QueueStats" [.num 3, .bytes (zeros 2), .num 5, .num 100, .num 10, .num 1]
-    let q' := V.obj "QueueStats" [.num 3, .bytes [], .num 0, .num 1407374883553280, .num 28147497671065600, .num 2814749767106560]
+    let q' := V.obj "QueueStats" [.num 3, .bytes [], .num 5, .num 100, .num 10, .num 1]
     let v := mpReplyV 4 48 7 Gen.openflow13.MultipartType_Queue 0 (.bytes (zeros 4)) [q]
     ∃ bs, MultipartReply.marshalM v = .ok (bs, v) ∧ bs.length = 48 ∧
       parse 49 (Slice.exact bs) = .ok (mpReplyV 4 48 7 Gen.openflow13.MultipartType_Queue 0 (.bytes []) [q']) :=
